@@ -364,6 +364,26 @@ static void build_streams(void)
                 st = &ST[NST++]; snprintf(nm, sizeof nm, "%s-1472", fr); sb_begin(st, nm, ts, 0x10);
                 sb_packet(st, 0, LS({'t',7},{'t',8},{'t',10},{'t',12},{'v',16},{'t',20},{'w',23},{'t',320},{'t',330},{'t',335}), 1472, 1472);
                 frameB(st, 1); frameC(st, 2); sb_end(st);
+                /* 8: data units the multiplexer never produces (partition independence only): Closed Caption 625 and the
+                 * libzvbi private units for 525 line systems, Teletext subtitle and inverted Teletext units, a monochrome
+                 * samples unit (skipped: the public demux has no raw output), an unknown data_unit_id, a unit with a wrong
+                 * length.  The 46 byte fixed length units of frames built by the multiplexer are overwritten in place. */
+                st = &ST[NST++]; snprintf(nm, sizeof nm, "%s-private", fr); sb_begin(st, nm, ts, 0x10);
+                st->intact = 0;
+                frameA(st, 0);
+                { size_t at = st->n; frameD(st, 1); uint8_t *u = st->b + at + (ts ? 4 : 0) + 46;
+                  memset(u + 2, 0xFF, 44); u[0] = 0xC5; u[2] = 0xC0 | (1 << 5) | 21; u[3] = 0x15; u[4] = 0x2C;            /* Closed Caption, first field line 21 */
+                  u += 46; memset(u + 2, 0xFF, 44); u[0] = 0xB5; u[2] = 0xC0 | (0 << 5) | 21; u[3] = 0x94; u[4] = 0x20;    /* ZVBI Closed Caption 525, second field */
+                  u += 46; memset(u + 2, 0xFF, 44); u[0] = 0xB4; u[2] = 0xC0 | (1 << 5) | 20; u[3] = 0x12; u[4] = 0x34; u[5] = 0x50; }  /* ZVBI WSS CPR-1204 */
+                { size_t at = st->n; frameD(st, 2); uint8_t *u = st->b + at + (ts ? 4 : 0) + 46;
+                  u[0] = 0x03;                                                                                           /* EBU Teletext subtitle */
+                  u += 46; u[0] = 0xC0;                                                                                   /* inverted Teletext */
+                  u += 46; memset(u + 2, 0xFF, 44); u[0] = 0xC6; u[2] = 0xC0 | (1 << 5) | 10; u[3] = 0; u[4] = 0; u[5] = 38; for (int i = 0; i < 38; i++) u[6 + i] = 16 + i; }  /* monochrome samples, one segment */
+                frameA(st, 3);
+                { size_t at = st->n; frameD(st, 4); uint8_t *u = st->b + at + (ts ? 4 : 0) + 46;
+                  u += 46; u[0] = 0x55;                                                                                   /* unknown data_unit_id */
+                  u += 46; u[1] = 0x2B; }                                                                                 /* Teletext unit with data_unit_length 43 */
+                frameB(st, 5); frameC(st, 6); if (ts) frameA(st, 7); sb_end(st);
         }
 
         /* base streams for the damage enumeration: 9 frames, the last one only flushes */
@@ -1151,7 +1171,7 @@ int main(int argc, char **argv)
         for (int i = 0; i < NST; i++) {
                 const char *nm = ST[i].name;
                 sel[nsel++] = i;
-                ST[i].quick = i < first_variant && (strstr(nm, "-3x1") || strstr(nm, "-foreign") || strstr(nm, "-garbage") || strstr(nm, "-var"));
+                ST[i].quick = i < first_variant && (strstr(nm, "-3x1") || strstr(nm, "-foreign") || strstr(nm, "-garbage") || strstr(nm, "-var") || strstr(nm, "-private"));
                 if (mc_tier == MC_THOROUGH || ST[i].quick) { nrun++; if (i >= first_variant) nvar++; }
         }
         /* longest searches first */
